@@ -193,3 +193,37 @@ Proof.
   - apply ssorted_map. exact H1.
   - apply ssorted_map. exact H2.
 Qed.
+
+(* variants relative to a predicate on the elements (e.g. "usage is finite") *)
+Lemma sorted_strong_on {A} (R : A -> A -> Prop) (P : A -> Prop) :
+  (forall a b c, P a -> P b -> P c -> R a b -> R b c -> R a c) ->
+  forall l, Forall P l -> Sorted R l -> StronglySorted R l.
+Proof.
+  intros Htr l. induction l as [|a t IH]; intros HP Hs; [constructor|].
+  inversion HP as [|? ? Pa Pt]; subst. inversion Hs as [|? ? Hst Hhd]; subst.
+  specialize (IH Pt Hst). constructor; [exact IH|].
+  destruct t as [|h t']; [constructor|].
+  inversion Hhd as [|? ? Rah]; subst. inversion IH as [|? ? _ Hall]; subst.
+  inversion Pt as [|? ? Ph Pt']; subst.
+  constructor; [exact Rah|].
+  rewrite Forall_forall in *. intros x Hx. apply (Htr a h x); auto.
+Qed.
+
+Lemma sorted_perm_eq_in {K} (leK : K -> K -> Prop) (l1 l2 : list K) :
+  (forall a b, In a l1 -> In b l1 -> leK a b -> leK b a -> a = b) ->
+  Permutation l1 l2 -> StronglySorted leK l1 -> StronglySorted leK l2 -> l1 = l2.
+Proof.
+  revert l2. induction l1 as [|a t1 IH]; intros l2 Hanti Hp H1 H2.
+  - apply Permutation_nil in Hp. subst. reflexivity.
+  - destruct l2 as [|b t2]; [apply Permutation_sym, Permutation_nil in Hp; discriminate|].
+    inversion H1 as [|? ? Ht1 Ha]; subst. inversion H2 as [|? ? Ht2 Hb]; subst.
+    rewrite Forall_forall in Ha, Hb.
+    assert (Hb_in : In b (a :: t1)) by (eapply Permutation_in; [symmetry; exact Hp|left; reflexivity]).
+    assert (Ha_in : In a (b :: t2)) by (eapply Permutation_in; [exact Hp|left; reflexivity]).
+    assert (E : a = b).
+    { destruct Hb_in as [|Hb_in']; [assumption|]. destruct Ha_in as [|Ha_in']; [congruence|].
+      apply Hanti; [left; reflexivity|right; exact Hb_in'|apply Ha; exact Hb_in'|apply Hb; exact Ha_in']. }
+    subst b. f_equal. apply IH; auto.
+    + intros x y Hx Hy. apply Hanti; right; assumption.
+    + eapply Permutation_cons_inv; exact Hp.
+Qed.
